@@ -84,7 +84,7 @@ class C11(Check):
         from sim import persist, gramgen
         from lark import Lark
         cases = []
-        for i in range(rng.randint(2, 4)):
+        for i in range(rng.randint(1, 3)):
             if rng.random() < 0.55:
                 # generated grammar: randomised serialisable features (see sim/gramgen.py)
                 g = gramgen.gen(rng)
@@ -159,6 +159,8 @@ class C11(Check):
             # only options the command line can express (anything else would make the generated module a parser for other options)
             return plan.get('cli') and not case.get('user') and not case.get('package') and set(o) <= {'parser', 'lexer', 'start', 'keep_all_tokens', 'propagate_positions', 'maybe_placeholders', 'use_bytes', 'regex'}
         cli = {c['name']: bool(cli_ok(c)) for c in plan['cases']}
+        for extra_ in [c_ for c_ in cli if cli[c_]][1:]:
+            cli[extra_] = False                 # (one command-line generated module per pipeline: each costs a second of interpreter start-up)
         tB = run('B', [{'do': 'build', 'cfg': c, 'standalone': plan['standalone'], 'cli': cli[c], 'compress_cli': plan.get('cli') == 'compress', 'warm': plan.get('warm', False)} for c in cfgs])
         if tB is None:
             return
